@@ -115,6 +115,8 @@ def run_container(rep: Report, wd: Path, pid: str, js: List[Dict[str, Any]], lab
         rep.evaluations += (len(t) - 1) * len(t[0]["d"])
         for e in t[1:]:
             stats["ops"][e["op"]] = stats["ops"].get(e["op"], 0) + 1
+            if e["a"].get("ro"):
+                stats["ops_on_read_only_drivers"] = stats.get("ops_on_read_only_drivers", 0) + 1
             if not e["d"][0]["ok"]:
                 stats["refused"] += 1
             stats["attached_objects_max"] = max(stats["attached_objects_max"], len(e["d"][0]["meta"]))
